@@ -16,7 +16,7 @@ pub enum L {
     En,
 }
 
-pub const MENU: [L; 13] = [L::T("a"), L::T("b c"), L::T("c "), L::T("d\t"), L::T(" x"), L::T("\ty"), L::E, L::Es, L::T("- z"), L::T("k: v"), L::T("# n"), L::S, L::En];
+pub const MENU: [L; 15] = [L::T("a"), L::T("b c"), L::T("c "), L::T("d\t"), L::T("...x"), L::T("---x"), L::T(" x"), L::T("\ty"), L::E, L::Es, L::T("- z"), L::T("k: v"), L::T("# n"), L::S, L::En];
 pub const LONG_MENU: [L; 4] = [L::T("aaaaaaaaaaaaaaa"), L::T("aaaaaaaaaaaaaaaa"), L::T("aaaaaaaaaaaaaaaaa"), L::T("aaaaaaaaaaaaaaaaaaaaaaaaaaaaaaaaaaaaaaaaaaaaaaaaaaaaaaaaaaaaaaaaaaaaaaaaaaaaaaaaaaaaaaaaaaaaaaaaaaaaaaaaaaaaaaaaaaaaaaaaaaaaaaaaaaaaaaaaaa é")];
 
 /// The text the scalar denotes. chomp: 0 strip, 1 clip, 2 keep.
@@ -125,8 +125,13 @@ pub fn render(lines: &[L], c: &Cfg) -> Option<Rendered> {
         5 => ("k:\n  - ".into(), 2),
         6 => wide(14),
         7 => wide(15),
-        _ => wide(16),
+        8 => wide(16),
+        // 9: document root whose content sits at column 0 (auto-detected indentation only)
+        _ => (String::new(), -1),
     };
+    if c.ctx == 9 && c.ind != 0 {
+        return None;
+    }
     // An explicit indentation indicator at document level: the statement says "the content
     // indentation is the explicit indicator", i.e. N columns (the reading of libyaml and of the
     // pinned tree; by the letter of the specification the root's parent level is -1 and the content
@@ -135,7 +140,13 @@ pub fn render(lines: &[L], c: &Cfg) -> Option<Rendered> {
     if c.sign_first && (c.ind == 0 || c.chomp == 1) {
         return None; // same text as the other order
     }
-    let n: usize = if c.ind != 0 { (p_explicit + c.ind as isize) as usize } else { (p + 1).max(0) as usize + 1 };
+    let n: usize = if c.ind != 0 {
+        (p_explicit + c.ind as isize) as usize
+    } else if c.ctx == 9 {
+        0
+    } else {
+        (p + 1).max(0) as usize + 1
+    };
     let is_text = |l: &L| matches!(l, L::T(_) | L::S);
     let first_text = lines.iter().position(is_text);
     if c.ind == 0 {
@@ -150,6 +161,9 @@ pub fn render(lines: &[L], c: &Cfg) -> Option<Rendered> {
             Some(ft) => {
                 match lines[ft] {
                     L::T(t) if t.starts_with(' ') => return None,
+                    // declined: with content at column 0 a tab-led first line would have to fix the
+                    // indentation at 0 columns; libyaml and saphyr refuse to auto-detect on a tab
+                    L::T(t) if t.starts_with('\t') && c.ctx == 9 => return None,
                     L::S => return None,
                     _ => {}
                 }
